@@ -228,7 +228,7 @@ def gen_problem(rng, big=False):
             sign = "dis" if used_all[ph] > 0 else "pre"
             if r < 0.4:
                 opt = sign
-            elif r < 0.5:
+            elif r < 0.45:
                 opt = "pre" if sign == "dis" else "dis"
         else:
             if r < 0.3:
@@ -275,7 +275,7 @@ def gen_problem(rng, big=False):
             elif kind < 0.8:
                 bal.append("    %s %s" % (el, " ".join(fmt(rng.choice([0.02, 0.05, 0.1, 0.2, 1.0])) for _ in range(rng.randint(1, len(solns))))))
             else:
-                bal.append("    %s %s" % (el, fmt(-rng.choice([1e-6, 1e-5, 5e-5, 1e-4]))))
+                bal.append("    %s %s" % (el, fmt(-rng.choice([1e-5, 5e-5, 1e-4, 2e-4]))))
     if rng.random() < 0.3:
         bal.append("    pH %s" % " ".join(fmt(rng.choice([0.02, 0.05, 0.1, 0.3])) for _ in range(rng.randint(1, len(solns)))))
     if rng.random() < 0.15:
